@@ -19,6 +19,7 @@ type GenCfg struct {
 	Ladder    int  // 1/Ladder chance that a string / byte array / small-element array takes a threshold size
 	LadderMax int  // largest ladder size allowed (0 = all)
 	LadderBig int  // one ladder hit in LadderBig is one of the sizes around the 64 KiB multiples
+	MaxNodes  int  // > 0: after this many records the rest of the value is as shallow as its types allow (deep but narrow values)
 	Giant     int  // > 0: one array of fixed-width scalars in Giant has about 2^17 elements
 }
 
@@ -58,6 +59,7 @@ type Gen struct {
 	// giants counts the giant arrays drawn so far: one per generator (a value of megabytes
 	// is enough; a dozen of them only costs time)
 	giants int
+	nodes  int // records generated so far (MaxNodes)
 }
 
 // manyLadder holds element counts around the preallocation hint of the stream decoders
@@ -274,6 +276,12 @@ func (g *Gen) count() int {
 
 func (g *Gen) def(d *schema.Def, budget int) Value {
 	r := g.R
+	g.nodes++
+	if g.Cfg.MaxNodes > 0 && g.nodes > g.Cfg.MaxNodes {
+		if m := g.min[d.Name]; m < budget {
+			budget = m // the spine is long enough: what hangs off it stays minimal
+		}
+	}
 	switch d.Kind {
 	case schema.KStruct:
 		v := Value{}
